@@ -689,12 +689,14 @@ CONTROLS = (("FeeRecipientMC_ctl_noApiVerify.cfg", "HeldValid", "the node keeps 
             ("FeeRecipientMC_ctl_noValidateTs.cfg", "MCSignJoins", "sign does not validate --timestamp"),
             ("FeeRecipientMC_ctl_applyOlder.cfg", "ViewSound", "the node applies an override that is not newer than the lock's registration"),
             ("FeeRecipientMC_ctl_D1_view.cfg", "ViewNewest", "D1 as coded: a validator twice in the file, the node takes the last entry"),
+            ("FeeRecipientMC_ctl_D1_api.cfg", "ViewNewest", "D1 as coded: two quorum groups of a validator in one API answer, the node takes the last"),
             ("FeeRecipientMC_ctl_D1_file.cfg", "MCFetchWritesGood", "D1 as coded: fetch drops the newer of two entries of the file"),
             ("FeeRecipientMC_ctl_live_noAdopt.cfg", "temporal", "liveness: without adoption the second operator never signs"))
 QUICK_MC = ["FeeRecipientMC_core.cfg", "FeeRecipientMC_twofr.cfg", "FeeRecipientMC_byz.cfg", "FeeRecipientMC_now.cfg", "FeeRecipientMC_gas.cfg",
             "FeeRecipientMC_two.cfg", "FeeRecipientMC_bad.cfg", "FeeRecipientMC_list.cfg", "FeeRecipientMC_plant.cfg", "FeeRecipientMC_timer.cfg",
             "FeeRecipientMC_strict.cfg", "FeeRecipientMC_four.cfg", "FeeRecipientMC_live.cfg"]
-THOROUGH_MC = QUICK_MC + ["FeeRecipientMC_%s_thorough.cfg" % c for c in ("core", "twofr", "byz", "two", "now", "gas", "four", "strict", "bad", "list", "timer")]
+THOROUGH_MC = QUICK_MC + ["FeeRecipientMC_%s_thorough.cfg" % c for c in ("core", "twofr", "byz", "two", "now", "gas", "four", "strict", "bad", "list", "timer")] + [
+    "FeeRecipientMC_strict_api.cfg"]
 GEN = ["core", "small", "two", "gas", "now", "list", "dup"]
 
 
